@@ -157,6 +157,22 @@ def forms_case(fa, cid, g, ir, rnd):
     if any(d["ns"] for d in g.defs.values()):
         # a null-namespace type cannot be referred to by name from inside a namespace: it stays inline
         split = {n for n in split if g.defs[n]["ns"] != ""}
+    # a piece is parsed before the top: whatever it refers to (and does not define itself) has to be a piece too
+    splittable = {n for n in named if not (any(d["ns"] for d in g.defs.values()) and g.defs[n]["ns"] == "")}
+    for _ in range(len(named) + 2):
+        changed = False
+        for n in sorted(split):
+            sub = p_resolve.positions(g.defs[n])
+            inside = {x["full"] for _, _, x in sub if x["k"] in ("record", "enum", "fixed")}
+            needs = {x["full"] for _, _, x in sub if x["k"] == "ref" and x["full"] not in inside and x["full"] != ir.get("full")}
+            if any(x["k"] == "ref" and x["full"] == ir.get("full") for _, _, x in sub) or not needs <= splittable:
+                split.discard(n)            # it refers to the top itself or to a type that cannot be a piece: stays inline
+                changed = True
+            elif not needs <= split:
+                split |= needs
+                changed = True
+        if not changed:
+            break
     forms = [("raw", raw), ("parsed", parsed)]
     c["split"] = sorted(split)
     if split:
@@ -164,8 +180,8 @@ def forms_case(fa, cid, g, ir, rnd):
         shared = {}
         try:
             for pc in pieces:
-                if c["id"][-1] in "05":
-                    # every 5th case: a piece that stands on its own is parsed on its own first and then registered, already parsed,
+                if c["id"][-1] in "02468":
+                    # every other case: a piece that stands on its own is parsed on its own first and then registered, already parsed,
                     # into the shared dictionary (which by then holds other names)
                     try:
                         alone = fa.parse_schema(pc)
